@@ -346,12 +346,14 @@ fn append_pattern_styles(tb: &mut ThemeBuilder, t_stroke: &str) {
         }
         let spec_class = format!("{}-", ptn_class);
 
-        let classes: Vec<_> = tb
+        let mut classes: Vec<_> = tb
             .classes
             .iter()
             .filter(|c| c.starts_with(&spec_class))
             .cloned()
             .collect();
+        // HashSet iteration order is arbitrary; keep output deterministic
+        classes.sort();
         for class in classes {
             if let Some(grid_size) = get_spacing(&spec_class, &class) {
                 pattern_defs(tb, t_stroke, &class, grid_size, ptn_type, ptn_rotate);
